@@ -217,6 +217,11 @@ cfg_not_miri! {
                     self.inner.peek_time().map(SimTime::from_duration)
                 }
 
+                #[cfg(petrichorit_des_verif)]
+                pub(crate) fn verif_check(&self) -> Result<des_cqueue::verif::VerifSnapshot, String> {
+                    self.inner.verif_check()
+                }
+
                 #[allow(clippy::needless_pass_by_value)]
                 pub(crate) fn fetch_next(
                     &mut self,
